@@ -195,9 +195,10 @@ class Report:
             "coverage": cov, "assumptions": self.assumptions, "wall_s": round(wall, 2),
             "violations": len(new),
         }
-        os.makedirs(os.path.join(VERIF, "evidence"), exist_ok=True)
-        with open(os.path.join(VERIF, "evidence", f"{self.pid}.json"), "w") as f:
-            json.dump(ev, f, indent=1, default=str)
+        if not os.environ.get("VERIF_NO_EVIDENCE"):      # (set by bin/seedmatrix: runs against a patched scratch copy are not evidence)
+            os.makedirs(os.path.join(VERIF, "evidence"), exist_ok=True)
+            with open(os.path.join(VERIF, "evidence", f"{self.pid}.json"), "w") as f:
+                json.dump(ev, f, indent=1, default=str)
         print(f"[{self.pid}] tier={self.tier} seed={self.seed} states={self.states} traces={self.traces} "
               f"evals={self.evaluations} refused={self.refused} skipped={self.skipped} "
               f"known={len(set(self.known_hits))} new_violations={len(new)} wall={wall:.1f}s")
